@@ -80,6 +80,14 @@ TITLES = {
     'C13c/2': ('DOUBLE -> REAL marked safe to flatten', 'CAST(CAST(d AS REAL) AS DOUBLE) for a DOUBLE that is not exact in f32'),
     'C14c/1': ('CREATE SCHEMA IF NOT EXISTS replaces an existing schema by an empty one', 'CREATE SCHEMA IF NOT EXISTS on a schema that holds tables'),
     'C14c/2': ('INSERT skips the implicit cast when only type parameters differ', 'INSERT of DECIMAL(3,2) values into a DECIMAL(10,4) column'),
+    'C03c/1': ('aggregate hash table scan gives each partition a contiguous range of num_blocks / partitions blocks (the remainder is never scanned)', 'GROUP BY / DISTINCT with more groups than one block per final table and a block count that is not a multiple of the partitions'),
+    'C03c/2': ('descending generate_series stops when curr == stop at the start of a call', 'generate_series(start, stop, negative step) whose value count minus one is a multiple of the batch size'),
+    'C05c/1': ('unary minus binds looser than ^', '-2 ^ 2'),
+    'C05c/2': ('float round computed as floor(v + 0.5)', 'round(-2.5), round(0.49999999999999994), odd integers >= 2^52'),
+    'C08c/1': ('the top-N limit hint ignores OFFSET', 'ORDER BY .. LIMIT n OFFSET m with m > 0'),
+    'C08c/2': ('DESC inversion also flips the validity byte of fixed-width sort keys', 'a DESC key of a non-string type containing NULLs'),
+    'C12c/1': ('DECIMAL -> float multiplies by a precomputed reciprocal', 'CAST(0.3 AS DOUBLE), 0.3 / 1.0'),
+    'C12c/2': ('DecimalSub::bind checks the LEFT type when deciding whether to rescale the right operand', 'DECIMAL(18,3) - DECIMAL(10,1)'),
     'C14b/2': ('INSERT flushes the table after every batch', 'INSERT ... SELECT from the same table, or an INSERT whose source fails after the first batch'),
 }
 # how the machinery fared before / after strengthening (filled by hand from the session log)
